@@ -27,6 +27,8 @@ type fNode struct {
 	val    string
 	kind   string // leaf flavour
 	opaque bool
+	omit   bool // the field carries omitempty
+	zero   bool // reflect IsZero of the leaf
 	keys   []string
 	kids   map[string]*fNode
 }
@@ -75,6 +77,10 @@ func fFill(n *fNode, v reflect.Value, d *sDesc) {
 			continue
 		}
 		if c := fExtract(fv, f.T); c != nil {
+			c.omit = f.Omit
+			if c.leaf {
+				c.zero = fv.IsZero()
+			}
 			if _, dup := n.kids[f.Key]; !dup {
 				n.keys = append(n.keys, f.Key)
 			}
@@ -157,6 +163,22 @@ func fTypedAt(v reflect.Value, d *sDesc, path []string) (reflect.Value, bool) {
 		}
 	}
 	return v, false
+}
+
+// coqO prints the node as an otv term (Part 7); opaque leaves are printed as their text, the marker
+func (n *fNode) coqO(encoded bool) string {
+	if n.leaf {
+		v := n.val
+		if n.opaque && encoded {
+			v = "[REDACTED]"
+		}
+		return "OSc " + vBool(n.omit) + " " + vBool(n.zero) + " " + vStr(v)
+	}
+	it := make([]string, len(n.keys))
+	for i, k := range n.keys {
+		it[i] = "(" + vStr(k) + ", " + n.kids[k].coqO(encoded) + ")"
+	}
+	return "ORec " + vBool(n.omit) + " " + vList(it)
 }
 
 type fLeaf struct {
@@ -538,6 +560,38 @@ func dFaithful(t *testing.T, out *vOut, r *vRand, all []dEntryPts) {
 				out.Stat("faithful.ceff", 1)
 			}
 		}
+		// CRound case: reload the component's section of the effective configuration; the typed
+		// configuration must come back (Part 7: encode_o, then overlay onto the factory defaults)
+		if sec, ok := fGetAny(effMap, []string{e.Kind, id.String()}); ok {
+			rterm := "(CRound " + vStr(e.Name) + " (" + def.coqO(false) + ") (" + obs.coqO(true) + ") "
+			cfg2, err2 := dLoad(dDoc(e, sec))
+			if err2 != nil {
+				out.Oracle("effective-config-not-reloadable", rterm+"(VRec []))", "the effective configuration of the component does not load: "+err2.Error())
+			} else if got2 := fSection(cfg2, e.Kind)[id]; got2 != nil {
+				obs2 := fExtract(reflect.ValueOf(got2), &sDesc{Kind: "ptr", Elem: e.D})
+				// direct oracle: every plain leaf comes back, unless it was left out as omitempty-zero
+				// while the default differs (the documented ambiguity) or it is a secret (marker)
+				var l1 []fLeaf
+				obs.leaves(nil, &l1)
+				for _, l := range l1 {
+					o2 := obs2.get(l.path)
+					switch {
+					case l.n.opaque:
+					case o2 == nil || !o2.leaf:
+						out.Oracle("round-trip-lost", rterm+"(VRec []))", strings.Join(l.path, "::")+" disappears when the effective configuration is loaded again")
+					case o2.val != l.n.val:
+						dn := def.get(l.path)
+						if l.n.omit && l.n.zero && dn != nil && dn.val == o2.val {
+							out.Stat("round.omitempty-ambiguity", 1)
+						} else {
+							out.Oracle("round-trip-differs", rterm+"(VRec []))", fmt.Sprintf("%s is %s, after reloading the effective configuration %s", strings.Join(l.path, "::"), l.n.val, o2.val))
+						}
+					}
+				}
+				out.Case(true, rterm+"("+obs2.coq()+"))")
+				out.Stat("round.cases", 1)
+			}
+		}
 		// every nested validation rule of the loaded configuration is evaluated
 		dCompareValidate(out, term+"(VRec []))", cfg)
 		var ol []fLeaf
@@ -567,6 +621,8 @@ func dFaithful(t *testing.T, out *vOut, r *vRand, all []dEntryPts) {
 }
 
 var fSecretRe = regexp.MustCompile(`SECRET-[0-9]+`)
+
+func componentID(typ string) component.ID { return component.MustNewID(typ) }
 
 func fSameDuration(es, canon string) bool {
 	d, err := time.ParseDuration(es)
